@@ -35,7 +35,7 @@ def gen_case(seed, i, nvar):
     cfg = gen.gen_cfg(rng, allow_cache=False)
     nroots = rng.choice([1, 2, 3])
     world, roots = gen.gen_world(rng, cfg, nroots=nroots, hostile=rng.random() < 0.3, max_files=rng.choice([12, 24, 40]),
-                                 families=rng.randint(2, 6), min_len=0)
+                                 families=rng.choice([1, 1, 2, 3, 4, 6]), min_len=0)   # few families = many entries of one size
     gflags = []
     if nroots >= 2 and rng.random() < 0.25:
         gflags.append("--isolate")
@@ -45,6 +45,11 @@ def gen_case(seed, i, nvar):
         gflags.append("-H")
     if rng.random() < 0.2:
         gflags += ["--min", "0"]
+    if "--isolate" not in gflags and rng.random() < 0.3:
+        # overlapping / repeated input paths: every path below is reached twice
+        subs = [e["p"] for e in world.entries if e["t"] == "d" and "/" in e["p"]]
+        roots = list(roots) + [rng.choice(subs) if subs and rng.random() < 0.6 else rng.choice(roots)]
+        nroots = len(roots)
     variants = []
     for v in range(nvar):
         perm = list(range(nroots))
